@@ -434,6 +434,40 @@ func scenarioC10(r *Run) {
 		}
 		r.Probe("parent-unprotected-junk-ignored")
 	}
+	// the countersignatures the message ARRIVED with (decoded objects: made by
+	// the foreign peer with wider-than-needed heads on their own protected
+	// bucket, or by go-cose): what reaches the verifier's seam for each is the
+	// deterministic structure over the wire bytes, and each verifies against
+	// the parent it was made over
+	if !constructed && path.Csig == nil && len(nodes) > 0 && t.Bool(2, 3, "c10.arrived") {
+		for _, n := range nodes {
+			if n.Abbrev {
+				continue
+			}
+			np := parentPath{SigIdx: path.SigIdx, Csig: n}
+			rcs, e1 := refParentAt(spec.Kind, w.B, np)
+			obj, _ := libParentAt(m1, ms, np)
+			lcs, _ := obj.(*cose.Countersignature)
+			if e1 != nil || lcs == nil {
+				continue // C07 reports countersignatures lost in decoding
+			}
+			sv := &SpyVerifier{Inner: r.verifierFor(n.Key, false), Alg: cose.Algorithm(n.Key.Alg)}
+			var verr error
+			parentArg := arg
+			r.Lib(func() { verr = lcs.Verify(sv, parentArg, n.External) })
+			r.Check()
+			want := refcose.CountersignStructures(rp.Kind, false, rp.Prot, rcs.Prot, n.External, rp.Payload, rp.Sig)
+			if len(sv.Calls) > 0 && !inSet(sv.Calls[0].Content, want) {
+				r.Fail("countersign-content-differs/"+pkName+"/full/arrived", "verifying a countersignature that arrived with the message (label %d index %d): the bytes handed to the verifier differ from the RFC 9338 Countersign_structure over the wire bytes\n got: %s\nwant: %s\nwire: %s", n.Label, n.Index, hexShort(sv.Calls[0].Content), hexShort(want[0]), hexShort(w.B))
+				return
+			}
+			if verr != nil {
+				r.Fail("arrived-countersignature-does-not-verify/"+pkName, "a countersignature that arrived with the message (label %d index %d, issued by %s) does not verify against the parent it was made over: %v\nwire: %s", n.Label, n.Index, w.Desc, verr, hexShort(w.B))
+				return
+			}
+			r.Probe("arrived-countersignature-structure-compared")
+		}
+	}
 	// binding 2: the parent crosses a faulty channel
 	for round, rounds := 0, 1+t.Choose(3, "c10.rounds"); round < rounds; round++ {
 		c10Mutation(r, t, w, spec, path, made, verifier, ent)
